@@ -479,14 +479,14 @@ var failureScope = map[string]struct {
 	floor int
 }{
 	"C01": {"R01.19", []string{"(*option.Option).Save", "getoptions.parseCLIArgs", "(*getoptions.GetOpt).Parse", "(*getoptions.GetOpt).SetValue"},
-		"text that does not convert, or that Save refuses, always ends in a parse error", 12},
+		"text that does not convert, or that Save refuses, always ends in a parse error", 8},
 	"C02": {"R02.16", []string{"(*option.Option).Save", "getoptions.parseCLIArgs"},
-		"an element that does not convert (where a value is mandatory or attached) always ends in a parse error", 10},
+		"an element that does not convert (where a value is mandatory or attached) always ends in a parse error", 6},
 	"C11": {"R11.18", []string{"(*getoptions.GetOpt).Dispatch", "(*getoptions.GetOpt).Parse", "getoptions.checkRequired"},
-		"a missing required option always ends in an error", 4},
+		"a missing required option always ends in an error", 3},
 	"C16": {"R16.16", []string{"(*dag.Graph).DepthFirstSort", "dag.visit", "(*dag.Graph).Run", "(*dag.Graph).Validate", "(*dag.Graph).addTask", "(*dag.Graph).retrieveOrAddVertex",
 		"(*dag.Graph).AddTask", "(*dag.Graph).TaskDependsOn", "(*dag.Graph).TaskRetries"},
-		"a definition error or a cycle always reaches the caller of Run / Validate", 9},
+		"a definition error or a cycle always reaches the caller of Run / Validate", 5},
 }
 
 // failureExceptions: call sites where a failing callee is deliberately not a failure of the caller (confirmed by reading).
